@@ -224,6 +224,54 @@ def run(ctx):
         rep.check(consumers and all(c.endswith("merge_parallel_deltas") for c in consumers), "C02.R3", "execute_work_queue:only-merged:%s" % u.name,
                   "worker results flow only into merge_parallel_deltas", "worker results are consumed by %s" % consumers, site=u.loc())
 
+    # ---- R5 the merge sees every op of every worker, and every unit runs against its own warp's store
+    rep.rule("C02.R5", "A1: no op is dropped between the workers' deltas and the canonical sort (how ops were grouped into deltas is a scheduling accident); "
+                       "no store reference outlives one claimed unit")
+    DROPPERS = r"Iterator>::(filter|filter_map|take_while|skip_while|skip|take|step_by|map_while)$|::retain(_mut)?$|::dedup(_by|_by_key)?$|BTreeSet.*::insert$|HashSet.*::insert$|BTreeMap.*::(insert|entry)$|::truncate$"
+    merges = [prog.fn("warp_core::engine_impl::merge_parallel_deltas")]
+    md = prog.fn_opt("warp_core::parallel::merge::merge_deltas")
+    if md is not None:
+        merges.append(md)
+    for mf in merges:
+        sorts = mf.call_sites(r"::sort(_by|_by_key|_unstable|_unstable_by|_unstable_by_key)?$")
+        if mf.name == "merge_parallel_deltas" and not sorts and mf.call_sites(r"merge::merge_deltas$"):
+            rep.ok("C02.R5", "merge-keeps-every-op:%s" % mf.name, "delegates to merge_deltas in this configuration", site=mf.loc())
+            continue
+        early = []
+        for b in mf.call_sites(DROPPERS):
+            if dominates(mf, sorts, [b]) is not None:
+                early.append((mf.name, mf.block_line(b), (mf.callee_of(mf.blocks[b]["t"]) or "").rsplit("::", 1)[-1]))
+        # closures handed to adaptors before the sort run before the sort
+        for bi, si, place, rv, line in mf.assigns():
+            if rv["r"] == "agg" and rv.get("ak") == "closure" and rv["adt"] in prog.fns and dominates(mf, sorts, [bi]) is not None:
+                stack_ = [rv["adt"]] + prog.closures_in(rv["adt"])
+                for cid in stack_:
+                    c = prog.fns[cid]
+                    for b in c.call_sites(DROPPERS + r"|bool::then_some$|bool::then$"):
+                        early.append((c.name, c.block_line(b), (c.callee_of(c.blocks[b]["t"]) or "").rsplit("::", 1)[-1]))
+        rep.check(bool(sorts) and not early, "C02.R5", "merge-keeps-every-op:%s" % mf.name, "every op reaches the canonical sort and the equal-key conflict test",
+                  "%s drops or de-duplicates ops before the canonical sort (%s): two divergent writes to one key are resolved silently when they share a delta and rejected when they "
+                  "do not — the outcome depends on how work was distributed" % (mf.name, early[:3]), site=mf.loc())
+    ewq = prog.fn(EXEC + "execute_work_queue")
+    n_workers = 0
+    for cid in prog.closures_in(ewq.id):
+        c = prog.fns[cid]
+        claims = c.call_sites(r"atomic::Atomic.*::fetch_add$")
+        if not claims:
+            continue
+        n_workers += 1
+        stale = []
+        for l_, ty_ in enumerate(c.locals):
+            if "GraphStore" not in ty_ or l_ <= c.argc:
+                continue
+            for d in c.defs().get(l_, ()):
+                bb_ = d[1] if d[0] in ("assign", "call") else None
+                if bb_ is not None and not c.blocks[bb_]["cl"] and dominates(c, claims, [bb_]) is not None:
+                    stale.append((ty_[:60], c.block_line(bb_)))
+        rep.check(not stale, "C02.R5", "worker:store-resolved-per-claimed-unit", "every store reference in the worker loop is produced after the unit was claimed",
+                  "the worker keeps a store reference across claimed units (%s): a unit can run against the store of a previously claimed unit's warp" % stale[:2], site=c.loc())
+    rep.check(n_workers >= 1, "C02.R5", "worker:found", "%d work-queue worker closure(s)" % n_workers, "work-queue worker closure not found", site=ewq.loc())
+
     # ---- R4
     pd = "warp_core::parallel::exec::PoisonedDelta"
     readers = []
